@@ -462,6 +462,22 @@ def drive_one(case, work):
         if t == "remove":
             need(op["e"] in tab and rec.kind[op["e"]] in ("group", "object", "data") and op["e"] not in (1, 3)
                  and not getattr(tab[op["e"]], "children", []))
+        if t == "die":
+            es = op["es"]
+            need(all(k < len(rec.refs) and rec.kind[k] != "type" for k in es))
+
+            def is_attached(x):
+                for _ in range(100):
+                    if any(x is w.root for w in wss):
+                        return True
+                    p = getattr(x, "parent", None)
+                    if p is None or not any(c is x for c in getattr(p, "children", [])):
+                        return False
+                    x = p
+                return False
+
+            need(not any(k in tab and is_attached(tab[k]) for k in es))
+            need(not any(k not in es and rec.ordof(getattr(x, "parent", None)) in es for k, x in tab.items()))
         if t == "create":
             kw = {"parent": inst(op["parent"]), "name": f"n{len(rec.refs)}"}
             if op["u"]:
